@@ -732,6 +732,19 @@ func (multi *MultiEpoch) StreamTransactions(params *old_faithful_grpc.StreamTran
 	return multi.processSlotTransactions(ctx, ser, startSlot, endSlot, params.Filter, gsfaReader, gsfaReadersLoaded)
 }
 
+// publicKeysFromBase58 parses the base58 account strings of a request filter.
+func publicKeysFromBase58(accounts []string) ([]solana.PublicKey, error) {
+	keys := make([]solana.PublicKey, 0, len(accounts))
+	for _, acc := range accounts {
+		key, err := solana.PublicKeyFromBase58(acc)
+		if err != nil {
+			return nil, fmt.Errorf("invalid account %q: %w", acc, err)
+		}
+		keys = append(keys, key)
+	}
+	return keys, nil
+}
+
 func (multi *MultiEpoch) processSlotTransactions(
 	ctx context.Context,
 	ser old_faithful_grpc.OldFaithful_StreamTransactionsServer,
@@ -742,16 +755,31 @@ func (multi *MultiEpoch) processSlotTransactions(
 	gsfaReadersLoaded bool,
 ) error {
 
+	// Parse the account filters once: a malformed account is a client error, not a reason to panic.
+	var includeKeys, excludeKeys, requiredKeys []solana.PublicKey
+	if filter != nil {
+		var err error
+		if includeKeys, err = publicKeysFromBase58(filter.AccountInclude); err != nil {
+			return status.Errorf(codes.InvalidArgument, "invalid account_include filter: %v", err)
+		}
+		if excludeKeys, err = publicKeysFromBase58(filter.AccountExclude); err != nil {
+			return status.Errorf(codes.InvalidArgument, "invalid account_exclude filter: %v", err)
+		}
+		if requiredKeys, err = publicKeysFromBase58(filter.AccountRequired); err != nil {
+			return status.Errorf(codes.InvalidArgument, "invalid account_required filter: %v", err)
+		}
+	}
+
 	filterOutTxn := func(tx solana.Transaction, meta any) bool {
 		if filter == nil {
 			return true
 		}
 
-		if !(*filter.Vote) && IsSimpleVoteTransaction(&tx) { // If vote is false, we should filter out vote transactions
+		if filter.Vote != nil && !(*filter.Vote) && IsSimpleVoteTransaction(&tx) { // If vote is false, we should filter out vote transactions
 			return false
 		}
 
-		if !(*filter.Failed) { // If failed is false, we should filter out failed transactions
+		if filter.Failed != nil && !(*filter.Failed) { // If failed is false, we should filter out failed transactions
 			err := getErr(meta)
 			if err != nil {
 				return false
@@ -760,11 +788,10 @@ func (multi *MultiEpoch) processSlotTransactions(
 
 		if !gsfaReadersLoaded { // Only needed if gsfaReaders not loaded, otherwise handled in the main branch
 			hasOne := false
-			for _, acc := range filter.AccountInclude {
-				pkey := solana.MustPublicKeyFromBase58(acc)
+			for _, pkey := range includeKeys {
 				ok, err := tx.HasAccount(pkey)
 				if err != nil {
-					klog.V(2).Infof("Failed to check if transaction %v has account %s", tx, acc)
+					klog.V(2).Infof("Failed to check if transaction %v has account %s", tx, pkey)
 					return false
 				}
 				if ok {
@@ -777,11 +804,10 @@ func (multi *MultiEpoch) processSlotTransactions(
 			}
 		}
 
-		for _, acc := range filter.AccountExclude {
-			pkey := solana.MustPublicKeyFromBase58(acc)
+		for _, pkey := range excludeKeys {
 			ok, err := tx.HasAccount(pkey)
 			if err != nil {
-				klog.V(2).Infof("Failed to check if transaction %v has account %s", tx, acc)
+				klog.V(2).Infof("Failed to check if transaction %v has account %s", tx, pkey)
 				return false
 			}
 			if ok { // If any excluded account is present, filter out the transaction
@@ -789,11 +815,10 @@ func (multi *MultiEpoch) processSlotTransactions(
 			}
 		}
 
-		for _, acc := range filter.AccountRequired {
-			pkey := solana.MustPublicKeyFromBase58(acc)
+		for _, pkey := range requiredKeys {
 			ok, err := tx.HasAccount(pkey)
 			if err != nil {
-				klog.V(2).Infof("Failed to check if transaction %v has account %s", tx, acc)
+				klog.V(2).Infof("Failed to check if transaction %v has account %s", tx, pkey)
 				return false
 			}
 			if !ok { // If any required account is missing, filter out the transaction
@@ -878,17 +903,15 @@ func (multi *MultiEpoch) processSlotTransactions(
 		const maxConcurrentAccounts = 10
 		sem := make(chan struct{}, maxConcurrentAccounts)
 
-		for _, account := range filter.AccountInclude {
+		for _, account := range includeKeys {
 			sem <- struct{}{} // Acquire token
 			wg.Add(1)
 
-			go func(acc string) {
+			go func(pKey solana.PublicKey) {
 				defer func() {
 					<-sem // Release token
 					wg.Done()
 				}()
-
-				pKey := solana.MustPublicKeyFromBase58(acc)
 
 				queryCtx, cancel := context.WithTimeout(ctx, 30*time.Second)
 				defer cancel()
